@@ -71,6 +71,9 @@ func (e *Env) DoRaw(req M) any {
 	norm(req)
 	f := fS(req, "f")
 	e.hist = append(e.hist, req)
+	if f == "raw.reset" {
+		e.FreshBase()
+	}
 	ctx := e.base.WithBlockTime(rawSt.now).WithBlockHeight(1)
 	store := e.K.ClientStore(ctx, rawClient)
 	var out any
